@@ -75,6 +75,10 @@ def impl(c):
         out["moves"] = common.div_to_list(G, e)
     out["series"] = [common.div_to_list(G, L.apply(d, CFiringScript(g, {names[i]: x for i, x in enumerate(sv)}))) for sv in c.get("series", [])]
     out["pure2"] = before == (common.div_to_list(G, d), d.get_total_degree(), dict(sc.script))
+    # two script objects built from ONE dict object (and the dict read again afterwards): an update of one must not reach the other or the caller's dict
+    src = {names[i]: x for i, x in enumerate(out["script"])}; src0 = dict(src); sA = CFiringScript(g, src); sB = CFiringScript(g, src)
+    sA.update_firings(names[c["q"]], 3); sA.set_firings(names[(c["q"] + 1) % n], -7)
+    out["shared_dict_ok"] = src == src0 and [sB.get_firings(x) for x in names] == out["script"] and common.div_to_list(G, L.apply(d, sB)) == out["apply"]
     # history on ONE script object: it has been read and applied above; now it is updated / set and applied again (and read back)
     i2 = c["q"]; k2 = 1 + (c["seed"] % 5); sc.update_firings(names[i2], k2); out["again1"] = common.div_to_list(G, L.apply(d, sc))
     sc.set_firings(names[(i2 + 1) % n], -k2); sc.update_firings(names[i2], -2 * k2); out["again2"] = common.div_to_list(G, L.apply(d, sc)); out["again_script"] = [dict(sc.script)[x] for x in names]
@@ -144,6 +148,7 @@ def judge(c, r, mo):
         E = [int(x) for x in mo[5 + k]]
         if o["series"][k] != E: out.append({"what": "apply #%d through the same Laplacian object with s=%s returned %s, exact D - L*s is %s" % (k + 2, sv, o["series"][k], E)}); break
     if not o.get("pure2", True): out.append({"what": "a later apply modified the divisor or the first script"})
+    if not o.get("shared_dict_ok", True): out.append({"what": "two scripts built from one dict: updating one changed the other script or the caller's dict"})
     if "again1" in o:
         base = 5 + len(c.get("series", [])); s1, s2 = _again_scripts(c, o["script"])
         for key, sv, line in (("again1", s1, mo[base]), ("again2", s2, mo[base + 1])):
@@ -162,6 +167,7 @@ def oracle(c, r):
     if not o["pure"]: why.append("arguments modified")
     if o["add_l"] != o["add_r"]: why.append("not additive")
     if o["ser"] != ["dict", "json", "txt"]: why.append("serializer: %s" % o["ser"])
+    if not o.get("shared_dict_ok", True): why.append("scripts built from one dict share storage")
     if "again1" in o:
         for key, sv in zip(("again1", "again2"), _again_scripts(c, o["script"])):
             ex = [c["D"][v] - sum(L[v][w] * sv[w] for w in range(n)) for v in range(n)]
